@@ -92,6 +92,30 @@ func check(c Case) string {
 		if got != want {
 			return fmt.Sprintf("Pow(%#x,%d)=%#x, reference %#x", a, p, got, want)
 		}
+	case "pow_sweep":
+		// c.B pseudo-random (base, exponent) pairs from the seed c.A, compared with the table-driven reference power
+		// (which reduces the exponent before multiplying); a mismatch is confirmed with the bit-serial reference
+		s := c.A | 1
+		for i := uint64(0); i < c.B; i++ {
+			s ^= s << 13
+			s ^= s >> 7
+			s ^= s << 17
+			a, p := uint16(s>>40), uint32(s)
+			if a > 1 && p > 1 {
+				sweepNonTrivial++
+			}
+			if i%4 == 1 && a != 0 {
+				// exponents for which log(a)*p has 16-bit digits at the carry boundaries
+				digs := [4]uint64{0, 1, 0xfffe, 0xffff}
+				x := digs[(s>>33)&3]<<32 | digs[(s>>35)&3]<<16 | (s>>48)&0xffff
+				if l := uint64(gf16.Log(a)); l != 0 && x/l <= 1<<32-1 {
+					p = uint32(x / l)
+				}
+			}
+			if got := uint16(gf2p16.T(a).Pow(p)); got != gf16.FPow(a, uint64(p)) {
+				return fmt.Sprintf("Pow(%#x,%d)=%#x, reference %#x (pair %d of the sweep)", a, p, got, gf16.Pow(a, uint64(p)), i)
+			}
+		}
 	case "poly_times":
 		_, lo := refPolyMul128(c.A, c.B)
 		got := uint64(gf2.Poly64(c.A).Times(gf2.Poly64(c.B)))
@@ -161,6 +185,8 @@ func structured64(i int) uint64 {
 		return ^uint64(0)
 	}
 }
+
+var sweepNonTrivial uint64
 
 func TestCheck(t *testing.T) {
 	cfg := run.Load("C08")
@@ -286,6 +312,17 @@ func TestCheck(t *testing.T) {
 			rt.Fatalf("pow")
 		}
 	})
+
+	// a bulk sweep over pseudo-random (base, exponent) pairs, a quarter of them with exponents at digit-carry boundaries
+	{
+		n := uint64(cfg.N(4000000, 100000000))
+		rec.Class("pow-sweep-pairs")
+		sweepNonTrivial = 0
+		if do(Case{Op: "pow_sweep", A: cfg.RapidSeed(77) * 0x9E3779B97F4A7C15, B: n}, n, false) {
+			// counted draws with base > 1 and exponent > 1; draws come from a 2^48 space, so repeats within one run are negligible (rule text says so)
+			rec.AddDistinct(sweepNonTrivial)
+		}
+	}
 
 	// --- Poly64 ------------------------------------------------------------
 	nstruct := 196
